@@ -159,6 +159,23 @@ Theorem query_body_roundtrip c : arrive LQuery c = c /\ arrive LBody c = c.
 Proof. split; reflexivity. Qed.
 Print Assumptions query_body_roundtrip.
 
+(* The request decoder removes the scheme prefix from the payload field of EVERY scheme whose
+   credential is carried by a header - in particular from each of several schemes that read
+   the same header (alternative JWT / OAuth2 / API-key requirements on one Authorization
+   header) - and from no other field. Scheme names identify schemes, as in a goa design. *)
+Theorem header_credentials_all_stripped L reqs r s a :
+  (forall s1 s2, In s1 (flat_map r_schemes reqs) -> In s2 (flat_map r_schemes reqs) -> s_name s1 = s_name s2 -> s1 = s2) ->
+  In r reqs -> In s (r_schemes r) -> attr_of s = Some a -> is_header (loc_of L a) = true ->
+  In a (strip_fields L reqs).
+Proof. exact (strip_fields_complete L reqs r s a). Qed.
+Print Assumptions header_credentials_all_stripped.
+
+Theorem only_header_credentials_stripped L reqs a :
+  In a (strip_fields L reqs) ->
+  is_header (loc_of L a) = true /\ exists r s, In r reqs /\ In s (r_schemes r) /\ attr_of s = Some a.
+Proof. exact (strip_fields_sound L reqs a). Qed.
+Print Assumptions only_header_credentials_stripped.
+
 (* End to end: inside the hypotheses above, what the callbacks are shown on the server is
    computed from exactly the credentials the client was given. *)
 Theorem credentials_arrive_partial ctx err (auth : kind -> sc -> list bytes -> ctx -> ctx * option err) L p reqs c :
